@@ -24,13 +24,12 @@ import scipy.sparse
 from common import (Stream, budget, enc_op, canon_op_json, to_gq, from_gq, dyadic, rng_for, show)
 
 OPEN_STATEMENTS = [
-    'sz_indices_spec for n_electrons=None (the union over the number of pairs): not proved; the fixed-particle-number branch '
-    'is (sz_indices_spec_fixed, arbitrary injective disjoint index maps); the relation numUp + numDown = popcount of the index '
-    'is not proved; both branches are exhaustive for n_qubits <= 4 (quick, sample to 8) / <= 10 (thorough) through two oracles',
-    'restrict_is_projection at the matrix level (M[ix_(I, I)] is the compression to the eigenspace): the index-set theorem '
-    'number_indices_spec and number_operator_diag are proved on masks; invariance of the particle number under the bit '
-    'reversal between masks and big-endian matrix indices is not; every restricted entry is compared with the Spec by the '
-    'restrict stream',
+    'sz_indices_spec is proved in terms of the numbers of up / down particles read from the index (sz_indices_spec_fixed, '
+    'sz_indices_spec_free, arbitrary injective disjoint index maps); the identities numUp + numDown = popcount and '
+    '(numUp - numDown)/2 = eigenvalue of the Model sz operator (sz_diag) are not proved; both oracles cover them',
+    'restrict_is_projection: the index part is proved at the matrix level for the particle number '
+    '(number_indices_matrix_sector: the listed matrix indices are exactly the eigenvalue-k basis states, through the bit '
+    'reversal); that numpy.ix_ extracts those rows / columns in list order is the indexing contract (restrict stream)',
     'iterate_basis_spec: each documented determinant exactly once (only iterate_basis_reference_first is proved)',
     'number_preserving matrix = compression of the operator to the determinant basis and totality (no exception on admissible '
     'input): only the sign / target loop (build_term_op_sound) is proved; the lookup (argsort / searchsorted) is covered by the '
